@@ -113,7 +113,7 @@ class PGen:
         if "range" in self.feats and r.random() < 0.8:
             return self.rangestmt(sub, size - 1)
         if self.others and "yieldfrom" in self.feats and r.random() < 0.7:
-            return {"s": "yieldfrom", "g": r.choice(self.others)}
+            return {"s": "yieldfrom", "g": r.choice(self.others), "id": self.fresh()}
         if self.others and "consumer" in self.feats:
             return self.rangeiter(sub, size - 1)
         if k < 0.97:
@@ -407,13 +407,16 @@ class Render:
         if k == "atom":
             return "tr.E(%d)" % s["id"]
         if k == "yield":
-            return self.yield_("tr.V(%d)" % s["id"])
+            return self.yield_("tr.V(%d)" % s["id"], s["id"] % 4 == 0)
         if k == "yieldx":
             return self.yield_(s["x"])
         raise ValueError(s)
 
-    def yield_(self, e):
-        return ("Yield(%s)" % e) if self.mode == "co" else ("y.Yield(%s)" % e)
+    def yield_(self, e, explicit=False):
+        # every fourth Yield is written with its type argument: Yield[int](x)
+        if self.mode == "co":
+            return ("Yield[int](%s)" % e) if explicit else ("Yield(%s)" % e)
+        return "y.Yield(%s)" % e
 
     def stmts(self, ss, ind):
         for s in ss:
@@ -427,12 +430,12 @@ class Render:
         elif k == "panic":
             e(ind, "tr.P(%d)" % s["id"])
         elif k == "yield":
-            e(ind, self.yield_("tr.V(%d)" % s["id"]))
+            e(ind, self.yield_("tr.V(%d)" % s["id"], s["id"] % 4 == 0))
         elif k == "yieldx":
             e(ind, self.yield_(s["x"]))
         elif k == "yieldfrom":
             if self.mode == "co":
-                e(ind, "YieldFrom(%s())" % s["g"])
+                e(ind, ("YieldFrom[int](%s())" if s.get("id", 1) % 3 == 0 else "YieldFrom(%s())") % s["g"])
             else:
                 e(ind, "y.YieldFrom(%s())" % s["g"])
         elif k == "block":
@@ -657,7 +660,7 @@ def apply_import_style(text, style):
     co, sq = IMPORT_STYLES[style]
     if co != ".":
         q = (co or "co") + "."
-        text = re.sub(r"(?<![\w.])(YieldFrom|Yield)\(", lambda m: q + m.group(1) + "(", text)
+        text = re.sub(r"(?<![\w.])(YieldFrom|Yield)([\(\[])", lambda m: q + m.group(1) + m.group(2), text)
         text = re.sub(r"(?<![\w.])Iter\[", q + "Iter[", text)
     imp = '\t%s"github.com/goghcrow/go-co"' % ("" if co == "" else co + " ")
     lines = [imp]
